@@ -99,6 +99,26 @@ def harness(c, cfg):
                 c.prove("C14:acq_prices-nan-when-no-price", _isnan(g))
             else:
                 c.prove_eq("C14:acq_prices-vectorised", g, w)
+        larr = ex.liq_prices([X, F1, F2], np.array([1, -1, 0]))
+        lwant = [model["X"]["bid"], model["F1"]["ask"], (model["F2"]["bid"] + model["F2"]["ask"]) / 2]
+        for g, w in zip(larr, lwant):
+            if _isnan(w):
+                c.prove("C14:liq_prices-nan-when-no-price", _isnan(g))
+            else:
+                c.prove_eq("C14:liq_prices-vectorised", g, w)
+        for fn, side in ((ex.bid_prices, "bid"), (ex.ask_prices, "ask")):
+            for g, key in zip(fn([X, F1, F2]), KEYS):
+                w = model[key][side]
+                if _isnan(w):
+                    c.prove("C14:%s_prices-nan-when-no-price" % side, _isnan(g))
+                else:
+                    c.prove_eq("C14:%s_prices-vectorised" % side, g, w)
+        for g, key in zip(ex.mid_prices([X, F1, F2]), KEYS):
+            if not _isnan(model[key]["bid"]):
+                c.prove_eq("C14:mid_prices-vectorised", g, (model[key]["bid"] + model[key]["ask"]) / 2)
+        for g, key in zip(ex.spreads([X, F1, F2]), KEYS):
+            if not _isnan(model[key]["bid"]):
+                c.prove_eq("C14:spreads-vectorised", g, model[key]["ask"] - model[key]["bid"])
         # ---- a futures-chain key addresses the book of its current lead contract
         now = sym_time(c, "now", lo=datetime(2029, 1, 1), hi=F2.last_trading_date)
         AbstractContract.now = now
